@@ -3,7 +3,7 @@ From PV Require Import Base Crit.
 
 (* criterion-building programs, exactly the operations the harness performs on pypika objects *)
 Inductive cexpr :=
-| XEmpty | XAtom (txt : string)
+| XEmpty | XAtom (txt : string) | XAtomT (plain ns : string) (foreign : bool)
 | XBin (op : bop) (a b : cexpr)      (* a & b, a | b, a ^ b *)
 | XInv (a : cexpr)                   (* ~a *)
 | XNeg (a : cexpr)                   (* a.negate() *)
@@ -14,6 +14,7 @@ Fixpoint ev (e : cexpr) : crit :=
   match e with
   | XEmpty => Empty
   | XAtom s => Atom s
+  | XAtomT p n f => AtomT p n f
   | XBin op a b => cbin op (ev a) (ev b)
   | XInv a => cinv (ev a)
   | XNeg a => cneg (ev a)
@@ -21,17 +22,19 @@ Fixpoint ev (e : cexpr) : crit :=
   | XAny l => call_any (map ev l)
   end.
 
-(* a statement program: a list of (is_having, criterion program) calls on Query.from_("t").select("*") *)
-Definition run_calls (calls : list (bool * cexpr)) : option crit * option crit :=
-  fold_left (fun (st : option crit * option crit) (c : bool * cexpr) =>
-               let (w, h) := st in
-               if fst c then (w, add_filter h (ev (snd c))) else (add_filter w (ev (snd c)), h))
-            calls (None, None).
+(* a statement program: a list of (is_having, criterion program) calls on Q.from_("t").select("*") *)
+Definition run_calls (calls : list (bool * cexpr)) : option crit * bool * option crit :=
+  fold_left (fun (st : option crit * bool * option crit) (c : bool * cexpr) =>
+               let '(w, f, h) := st in
+               if fst c then (w, f, add_filter h (ev (snd c)))
+               else let (w', f') := add_where (w, f) (ev (snd c)) in (w', f', h))
+            calls (None, false, None).
 
-Definition model_text (calls : list (bool * cexpr)) : string :=
-  let (w, h) := run_calls calls in
-  match render_stmt w h with Some s => s | None => "!TypeError" end.
+Definition model_text (head : string) (calls : list (bool * cexpr)) : string :=
+  let '(w, f, h) := run_calls calls in
+  match render_stmt_h f head w h with Some s => s | None => "!TypeError" end.
 
-Definition check_case (c : list (bool * cexpr) * string) : bool :=
-  String.eqb (model_text (fst c)) (snd c).
-Definition show_case (c : list (bool * cexpr) * string) : string := model_text (fst c).
+Definition check_case (c : string * list (bool * cexpr) * string) : bool :=
+  let '(head, calls, expected) := c in String.eqb (model_text head calls) expected.
+Definition show_case (c : string * list (bool * cexpr) * string) : string :=
+  let '(head, calls, _) := c in model_text head calls.
